@@ -456,10 +456,11 @@ def decodeScalar0 (ext : Ext) (data : Bytes) (oid : Nat) : M GoVal :=
   else pure (.str (safeString data))
 
 /-- DecodeType restricted to non-range scalars: what decodeRange calls for its bounds -/
-def decodeType0 (ext : Ext) (data : Bytes) (oid : Nat) : M GoVal := do
-  if data.length == 0 then return .nil
-  if let some elemOid := arrayElemTypes.lookup oid then return ← ext.decodeArray data elemOid
-  decodeScalar0 ext data oid
+def decodeType0 (ext : Ext) (data : Bytes) (oid : Nat) : M GoVal :=
+  if data.length = 0 then pure .nil
+  else match arrayElemTypes.lookup oid with
+    | some elemOid => ext.decodeArray data elemOid
+    | none => decodeScalar0 ext data oid
 
 /-- decodeRange; `DecodeType(bound, elemOid)` re-enters the non-range part of the dispatch -/
 def decodeRange (ext : Ext) (data : Bytes) (oid : Nat) : M GoVal := do
@@ -502,9 +503,10 @@ def decodeScalar (ext : Ext) (data : Bytes) (oid : Nat) : M GoVal :=
   if isRangeOid oid then decodeRange ext data oid else decodeScalar0 ext data oid
 
 /-- types.go:DecodeType -/
-def decodeType (ext : Ext) (data : Bytes) (oid : Nat) : M GoVal := do
-  if data.length == 0 then return .nil
-  if let some elemOid := arrayElemTypes.lookup oid then return ← ext.decodeArray data elemOid
-  decodeScalar ext data oid
+def decodeType (ext : Ext) (data : Bytes) (oid : Nat) : M GoVal :=
+  if data.length = 0 then pure .nil
+  else match arrayElemTypes.lookup oid with
+    | some elemOid => ext.decodeArray data elemOid
+    | none => decodeScalar ext data oid
 
 end PgVerif.Model.Scalars
